@@ -130,6 +130,7 @@ type c14state struct {
 	mu     sync.Mutex
 	events [][]int32 // per subscriber
 	closed []bool
+	seen   map[int32]int64 // value -> sequence number at which a subscriber first received its change event
 	subErr error
 }
 
@@ -263,6 +264,12 @@ func (c14) Run(c *core.Case, env *core.Env) {
 			for v := range ch {
 				st.mu.Lock()
 				st.events[i] = append(st.events[i], v)
+				if st.seen == nil {
+					st.seen = map[int32]int64{}
+				}
+				if _, ok := st.seen[v]; !ok {
+					st.seen[v] = zzsim.Seq()
+				}
 				st.mu.Unlock()
 			}
 			st.mu.Lock()
@@ -530,6 +537,21 @@ func (c14) PostCheck(c *core.Case, env *core.Env, v *core.Verdict) {
 		}
 	}
 	var ops []porcupine.Operation
+	seenAt := map[int32]int64{}
+	writes := map[int32]int{}
+	if st, _ := env.Get("st").(*c14state); st != nil {
+		st.mu.Lock()
+		for k, t := range st.seen {
+			seenAt[k] = t
+		}
+		st.mu.Unlock()
+	}
+	for _, h := range env.History() {
+		if h.Kind == "set" || h.Kind == "update" {
+			n, _ := strconv.Atoi(h.Arg)
+			writes[int32(n)]++
+		}
+	}
 	for _, h := range env.History() {
 		if h.Ret == 0 {
 			return
@@ -555,7 +577,17 @@ func (c14) PostCheck(c *core.Case, env *core.Env, v *core.Verdict) {
 			val, _ := strconv.Atoi(h.Out[2:])
 			ops = append(ops, porcupine.Operation{ClientId: h.Client, Input: c14in{"get", 0}, Call: h.Call, Output: c14out{true, int32(val)}, Return: h.Ret})
 		case "set", "update":
-			ops = append(ops, porcupine.Operation{ClientId: h.Client, Input: c14in{"set", int32(n)}, Call: h.Call, Output: c14out{h.OK, 0}, Return: h.Ret})
+			ret := h.Ret
+			// a subscriber that holds the change event of a value knows the
+			// write has taken effect: it cannot be ordered after that moment
+			// (only for values written once: the event names its write)
+			if t, ok := seenAt[int32(n)]; ok && writes[int32(n)] == 1 && t < ret && t > h.Call {
+				ret = t
+			}
+			// (the writer of a write that could not be announced to one
+			// unreachable subscriber is told so; the write stands)
+			applied := h.OK || containsStr(h.Err, "victim-broken")
+			ops = append(ops, porcupine.Operation{ClientId: h.Client, Input: c14in{"set", int32(n)}, Call: h.Call, Output: c14out{applied, 0}, Return: ret})
 		case "set-rejected", "set-wrong-type":
 			ops = append(ops, porcupine.Operation{ClientId: h.Client, Input: c14in{"bad", 0}, Call: h.Call, Output: c14out{h.OK, 0}, Return: h.Ret})
 		}
